@@ -310,7 +310,11 @@ JAAllowed(j, tl, n, e, obs, segs, rest, restOK) ==
              \* the last message ended together with the transport fault: it may or may not be included
              \/ SegsOK(Visible(j.starts, j.lens, tl), segs) /\ n = j.total + rest /\ rest <= j.partial
              \/ SegsOK(Visible(Append(j.starts, j.s.start), Append(j.lens, j.partial), tl), segs) /\ rest = 0
-          ELSE /\ SegsOK(Visible(j.starts, j.lens, tl), segs) /\ n = j.total + rest /\ rest <= j.partial
+          ELSE /\ \/ SegsOK(Visible(j.starts, j.lens, tl), segs) /\ n = j.total + rest /\ rest <= j.partial
+                  \* without a terminator the delivered part of an unfinished message cannot be told from a
+                  \* complete message with the same bytes: the observer may attribute it either way
+                  \/ /\ tl = 0 /\ j.partial > 0 /\ rest = 0 /\ n = j.total + j.partial
+                     /\ SegsOK(Visible(Append(j.starts, j.s.start), Append(j.lens, j.partial), tl), segs)
                /\ (j.w.res = "failed" \/ ErrFits(j.w, e))
 
 JANext(j, e) == [j.s EXCEPT !.failed = TRUE, !.nrid = e.id, !.rd = "none", !.nerr = j.s.nerr + 1]
